@@ -52,4 +52,11 @@ MUTANTS = [
                  info.get('definition'))
                 for info in chunk
             ]""")]},
+    {'name': 'benign-csv-reader-quote-none', 'expect': 'silent', 'property': 'C19',
+     'edits': [E(I, """        for line in fh:
+            yield dict(zip(fields, line.rstrip('\\r\\n').split('\\t')))""", """        import csv
+        for row in csv.reader(fh, delimiter='\\t', quoting=csv.QUOTE_NONE):
+            yield dict(zip(fields, row))""")]},
+    {'name': 'ili-line-stripped-entirely', 'expect': 'C19-R6',
+     'edits': [E(I, "line.rstrip('\\r\\n').split('\\t')", "line.strip().split('\\t')")]},
 ]
